@@ -165,7 +165,23 @@ fn out_of<T, E>(r: Result<Result<T, E>, PanicInfo>) -> Out<T> {
     }
 }
 
+/// The library's seed object for `bytes` (n bytes).  The public API offers two constructions:
+/// `Seed::default()` + `as_mut_slice()`, and `Seed::from([u8; 32])`, whose backing buffer is 32
+/// bytes for every hash — for the 16/24-byte hashes the bytes beyond n are not part of the seed.
+/// Which one is used is a deterministic function of the seed bytes (so that re-evaluations of the
+/// same case stay comparable); in the second form the surplus bytes are non-zero junk, which must
+/// not influence anything.
 pub fn seed_of<H: hbs_lms::HashChain>(bytes: &[u8]) -> Seed<H> {
+    let n = bytes.len();
+    let from_array = n < 32 && bytes.iter().fold(0u8, |a, b| a.wrapping_add(*b)) & 1 == 1;
+    if from_array {
+        let mut arr = [0u8; 32];
+        arr[..n].copy_from_slice(bytes);
+        for i in n..32 {
+            arr[i] = (bytes[i % n] ^ 0xc3) | 1;
+        }
+        return Seed::<H>::from(arr);
+    }
     let mut s = Seed::<H>::default();
     s.as_mut_slice().copy_from_slice(bytes);
     s
